@@ -82,6 +82,7 @@ class Analysis:
         self.entry = entry
         self.heap = HeapDict()  # (node, label) -> set(nodes)
         self.shallow: dict = {}  # node -> set(original nodes)
+        self.imm_elements: set = set()  # module-level containers written as literals of constants
         self.definite: dict = {}  # dict-literal node -> constant keys that come after every dynamic key of the literal
         self.lazy: set = set()  # nodes whose fields materialise lazily (P, S, deep copies)
         self.writes: list[Write] = []
@@ -139,6 +140,8 @@ class Analysis:
                     continue
                 if l == label or l == "*" or label == "*" or (isinstance(l, tuple) and l[0] == "k") or (isinstance(label, tuple) and label[0] == "k"):
                     out |= vs
+            if self.is_lazy(n) and n in self.imm_elements and not self.heap.idx.get(n):
+                continue  # elements of a module-level table of literals (nothing was stored into it): immutable values
             if self.is_lazy(n):
                 lab = label
                 c = self.child(n, lab if not isinstance(lab, tuple) else "*")
@@ -421,7 +424,11 @@ class Analysis:
             if isinstance(r, tuple) and r[0] == "const":
                 v = r[2]
                 if isinstance(v, (ast.Dict, ast.List, ast.Set)) or (isinstance(v, ast.Call) and norm(v.func).split(".")[-1] in ("dict", "list", "set", "defaultdict", "OrderedDict", "WeakValueDictionary", "deque")):
-                    return {("S", ("<global>", e.id))}  # module-level mutable container: process-wide shared state
+                    g = ("S", ("<global>", e.id))
+                    elts = (list(v.values) if isinstance(v, ast.Dict) else list(v.elts)) if isinstance(v, (ast.Dict, ast.List, ast.Set)) else None
+                    if elts is not None and all(isinstance(x, ast.Constant) for x in elts):
+                        self.imm_elements.add(g)  # a table of literals: what is read out of it is immutable
+                    return {g}  # module-level mutable container: process-wide shared state
             return set()
         if isinstance(e, ast.Constant):
             return set()
